@@ -90,6 +90,8 @@ def enc_query(q):
             o[key] = [[str(sym(c)), str(sym(u)), str(int(e))] for c, u, e in v]
         elif key == "f":
             o[key] = v
+        elif key == "fu":
+            o[key] = bool(v)
     return o
 
 
@@ -195,6 +197,31 @@ def ask(db, q):
 
             m = OrderedDict((c, [u, e]) for c, u, e in q["ents"])
             return dict(ok=describe(ObtainQuantity(m) if k == "derived" else Quantity.CreateDerived(m)))
+        if k == "allUnits":
+            return dict(ok=dict(l=list(db.GetUnits())))
+        if k == "allUnitNames":
+            return dict(ok=dict(l=list(db.GetUnitNames(None))))
+        if k == "unitNames":
+            return dict(ok=dict(l=list(db.GetUnitNames(q["qt"]))))
+        if k == "quantityTypes":
+            return dict(ok=dict(l=list(db.GetQuantityTypes())))
+        if k == "checkQuantityType":
+            db.CheckQuantityType(q["qt"])
+            return dict(ok=None)
+        if k == "categories":
+            return dict(ok=dict(l=list(db.IterCategories())))
+        if k == "isValidCategory":
+            return dict(ok=dict(b=bool(db.IsValidCategory(q["c"]))))
+        if k == "unitName":
+            return dict(ok=dict(s=db.GetUnitName(q["qt"], q["u"])))
+        if k == "checkQtUnit":
+            db.CheckQuantityTypeUnit(q["qt"], q["u"])
+            return dict(ok=None)
+        if k == "info":
+            i = db.GetInfo(q["qt"], q["u"], fix_unknown=bool(q["fu"]))
+            return dict(ok=dict(cat=i.quantity_type, unit=i.unit))
+        if k == "getValue":
+            return dict(ok=dict(x=float(Scalar(q["x"], q["u"], q["c"]).GetValue(q["v"])).hex()))
         # --- asked on the real code only (oracle / search of C15; the model has no such query kinds)
         if k == "isValidU":
             return dict(ok=dict(b=bool(Scalar(q["x"], q["u"]).IsValid())))
@@ -203,11 +230,6 @@ def ask(db, q):
 
             qq = ObtainQuantity(q["u"])
             return dict(ok=dict(cat=qq.GetCategory(), unit=qq.GetUnit(), ci=ci_fields(qq.GetCategoryInfo())))
-        if k == "quantityTypes":
-            return dict(ok=dict(l=list(db.GetQuantityTypes())))
-        if k == "checkQuantityType":
-            db.CheckQuantityType(q["qt"])
-            return dict(ok=None)
     except RecursionError:
         return dict(err="runtime")
     except Exception as e:
@@ -349,6 +371,11 @@ def cmp_answer(q, io, mo, limits=None):
     for key in ("cat", "unit", "s"):
         if (key in a) != (key in b) or (key in a and a[key] != unsym(int(b[key]))):
             return "%s differs: impl=%r model=%r" % (key, a.get(key), unsym(int(b[key])) if key in b else None)
+    if q["q"] == "quantityTypes" and "l" in a and "l" in b:
+        # GetQuantityTypes() sorts; the model lists the keys of `quantity_types`
+        if a["l"] != sorted(unsym(int(u)) for u in b["l"]):
+            return "list differs: impl=%r model(sorted)=%r" % (a["l"], sorted(unsym(int(u)) for u in b["l"]))
+        return None
     if ("l" in a) != ("l" in b) or ("l" in a and a["l"] != [unsym(int(u)) for u in b["l"]]):
         return "list differs: impl=%r model=%r" % (a.get("l"), [unsym(int(u)) for u in b.get("l", [])])
     if ("ci" in a) != ("ci" in b):
@@ -379,6 +406,29 @@ def cmp_answer(q, io, mo, limits=None):
 
 
 # ------------------------------------------------------------------------------------ the registry invariant
+def getters_pure(db):
+    """The "all of them" getters report exactly what the registry holds and leave it as it was."""
+    before = snapshot(db)
+    flat = [i.unit for infos in db.quantity_types.values() for i in infos]
+    out = []
+    try:
+        got = [list(db.GetUnits()), list(db.GetUnits()), [i.unit for i in db.GetInfos()], sorted(db.quantity_types),
+               list(db.categories_to_quantity_types)]
+        want = [flat, flat, flat, list(db.GetQuantityTypes()), list(db.IterCategories())]
+        for qt in list(db.quantity_types):
+            got.append(list(db.GetUnits(qt)))
+            want.append([i.unit for i in db.quantity_types[qt]])
+        if got != want:
+            out.append(dict(clause="a getter does not report the registered units / quantity types / categories",
+                            got=[g for g, w in zip(got, want) if g != w][:1], expected=[w for g, w in zip(got, want) if g != w][:1]))
+    except Exception as e:
+        out.append(dict(clause="a getter raises on a well-formed registry", error=repr(e)[:120]))
+    if snapshot(db) != before:
+        out.append(dict(clause="a getter changed the registry (a unit is now listed under a quantity type it does not "
+                               "belong to)", getters="GetUnits() / GetInfos() / GetQuantityTypes() / IterCategories()"))
+    return out
+
+
 def default_scalars(db, require_default=False):
     """`Scalar(1.0, unit)` (no category named) for every registered unit: where GetDefaultCategory gives a category
     the Scalar must build with that category and unit (every unit, if `require_default`).  Returns
